@@ -171,7 +171,7 @@ def _impl_H(H, view, stoich, intids=False, keep=None):
     A = AA.summary(max_count=10 ** 9, timeout_sec=None)
     if keep is not None:
         keep.update(C=C, A=AA, s=s, a=A)
-    return [S(nodes), S(arcs), log,
+    return [S(nodes), S(arcs), [list(x) for x in log],
             [rank[v] for v in s["canonical_perm"]],
             C._label(G, s["canonical_perm"]),
             s["automorphism_count"],
@@ -357,9 +357,14 @@ def _coq_net(net, view="bip", intids=False):
     return "(Net %s %s)" % (sp, clist(rx))
 
 
+MODEL_MAX_NODES = 45         # the Gallina model is evaluated by vm_compute; its refinement is O(n^4): larger views are judged by the oracle only
+
+
 def coq_case(case):
     if case.get("attrs"):
         return None          # non-default attribute keys / WL options: outside the model, oracle only
+    if any(len({s for _, _, l, r in n["rxns"] for s, _ in l + r} | set(n.get("iso", []))) + len(n["rxns"]) > MODEL_MAX_NODES for n in case["nets"]):
+        return None
     if case.get("ops"):
         terms = ["run_net %s %s %s" % (cbool(view == "bip"), cbool(st), _coq_net(net, view, intids))
                  for net, view, st, intids in _history_nets(case)]
@@ -959,7 +964,7 @@ def _names(rng, k):
     return rng.sample(ext, k)
 
 
-def _ring_cases(rng, sizes, big_forms=("uni", "pcat"), more=4):
+def _ring_cases(rng, sizes, big_forms=("uni",), more=4):
     out = []
     for n in sizes:
         for form in ("uni", "cat", "pcat", "dimer", "rev"):
@@ -979,7 +984,7 @@ def _ring_cases(rng, sizes, big_forms=("uni", "pcat"), more=4):
                 if n >= 5 or form == "pcat":
                     # symmetric branching points with several equal-size cells below them: many renamings, so that every
                     # order of the names relative to each other and to the generated reaction ids occurs
-                    for _ in range(more if n <= 5 else 1):
+                    for _ in range(more if n <= 4 else (2 if n == 5 else 0)):
                         nets.append(_variant(rxs, rng, sp, _names(rng, len(sp)), explicit_ids=rng.random() < 0.3))
                         rel.append("variant")
                 # the same skeleton with one / two coefficients raised: differ only in stoichiometry
@@ -1126,8 +1131,8 @@ def _long_cases(rng):
     out = []
     sp, rxs = _ring(11, "uni")
     for view, st in (("bip", True), ("sp", True)):
-        nets = [_net_of(rxs), _variant(rxs, rng, sp, _names(rng, len(sp))), _variant(rxs, rng, sp, sp[3:] + sp[:3], explicit_ids=True)]
-        out.append(_case("long", view, st, nets, ["base", "variant", "variant"]))
+        nets = [_net_of(rxs), _variant(rxs, rng, sp, _names(rng, len(sp)), explicit_ids=(view == "sp"))]
+        out.append(_case("long", view, st, nets, ["base", "variant"]))
     chain = [(((sp[i], 1),), ((sp[i + 1], 1 + (i == 9)),)) for i in range(10)]
     for view, st in CONFIGS:
         nets = [_net_of(chain), _variant(chain, rng, sp, _names(rng, len(sp)))]
@@ -1227,11 +1232,12 @@ def _intids_cases(rng):
     """integer_ids=True on the bipartite view (species 1..N in sorted order, reactions N+1.. sorted by id): a renaming of the
     default view; with >= 10 nodes the numeric order of the ids differs from the string order of the names"""
     out = []
-    for n, form in ((3, "pcat"), (5, "uni"), (4, "rev"), (6, "uni")):
+    for n, form in ((3, "pcat"), (5, "uni"), (4, "rev")):
         sp, rxs = _ring(n, form)
         nets = [_net_of(rxs), _variant(rxs, rng, sp, _names(rng, len(sp))), _variant(rxs, rng, sp, _names(rng, len(sp)), explicit_ids=True)]
         out.append(_case("intids", "bip", True, nets, ["base", "variant", "variant"], intids=True))
-    sp, rxs = _ring(11, "uni")
+    sp = ["S%d" % i for i in range(7)]
+    rxs = [(((sp[i], 1),), ((sp[i + 1], 1 + (i == 2)),)) for i in range(6)]          # 13 nodes: ids 10..13 sort before 2 as strings
     out.append(_case("intids", "bip", True, [_net_of(rxs), _variant(rxs, rng, sp, _names(rng, len(sp)))], ["base", "variant"], intids=True))
     for _ in range(12):
         c = _random_case(rng, "bip", rng.random() < 0.7)
@@ -1324,7 +1330,7 @@ def gen_cases(tier, rng):
     cases += _intids_cases(rng)
     cases += _attr_cases(rng)
     cases += _hist_cases(rng, 30 if tier == "quick" else 300)
-    cases += _big_cases(rng, [30] if tier == "quick" else [30, 120])
+    cases += _big_cases(rng, [12, 40] if tier == "quick" else [12, 40, 120])
     cases += _seq_cases(rng, 24 if tier == "quick" else 400)
     if tier == "quick":
         cases += _ring_cases(rng, [2, 3, 4, 5, 6], more=3)
